@@ -38,6 +38,20 @@ def single_result_shapes():
        {"success": {"b": gen.tagref("b")}, "failed": {"why": Expr(Ref("a", "outputs", "error", "reason"))}}, outcome={"a": "error"})
     mk("crash_path", [gen.plugin_step("a", Expr(In("tag"))), gen.plugin_step("b", gen.tagref("a"))],
        {"success": {"b": gen.tagref("b")}, "crashed": {"why": Expr(Ref("a", "crashed", "error", "output"))}}, outcome={"a": "crash"})
+    # a step stopped before its input can exist (the stop source also gates the step that feeds it): always closed, never run
+    sx = gen.plugin_step("X", gen.tagref("S2"), stop_if=Expr(Ref("S", "outputs", "success", "tag")))
+    sx.stop_mode = "before"
+    mk("stopped_before_start", [gen.plugin_step("S", Expr(In("tag"))), gen.plugin_step("S2", gen.tagref("S")), sx],
+       {"success": {"x": gen.tagref("X")}, "stopped": {"r": Expr(Ref("X", "closed", "result")), "s2": gen.tagref("S2")}})
+    # many loop items failing at the same moment
+    sub = gen.sub_program("sub.yaml", 1)
+    mk("loop_all_items_fail", [Step("loop", "foreach", sub=sub, items=Expr(In("items")), parallelism=16)],
+       {"success": {"d": Expr(Ref("loop", "outputs", "success", "data"))}, "failed": {"e": Expr(Ref("loop", "failed", "error", "errors"))}},
+       inp={"tag": "T1", "items": [{"tag": "i%d" % k} for k in range(24)]}, scripts_extra={"sub_w0": {"exec": {"outcome": "crash"}}})
+    # a loop over the result of an earlier step whose items take a while (their deployment is slow)
+    sub2 = gen.sub_program("sub2.yaml", 1)
+    mk("loop_after_step_slow_items", [gen.plugin_step("a", Expr(In("tag"))), Step("loop", "foreach", sub=sub2, items=[{"tag": gen.tagref("a")}, {"tag": Expr(In("tag"))}, {"tag": "k"}], parallelism=2)],
+       {"success": {"d": Expr(Ref("loop", "outputs", "success", "data"))}}, scripts_extra={"sub2_w0": {"deploys": [{}, {"delay_ms": 45}]}})
     mk("no_output_possible", [gen.plugin_step("a", Expr(In("tag"))), gen.plugin_step("b", gen.tagref("a"))],
        {"success": {"b": gen.tagref("b")}}, outcome={"a": "error"})
     return out
@@ -95,8 +109,9 @@ def plan_key(res, rclass, single_point=None):
 
 
 def run(check):
-    check.rule = ("14 single-result programs (one step, chain, diamond, enabled, disabled, wait_for, deploy expression, foreach, foreach+plugin, oneof, "
-                  "wait-optional, error path, crash path, nothing producible); a record run lists the schedule points (spliced before lock/unlock, channel "
+    check.rule = ("17 single-result programs (one step, chain, diamond, enabled, disabled, wait_for, deploy expression, foreach, foreach+plugin, oneof, "
+                  "wait-optional, error path, crash path, nothing producible, step stopped before it can start, loop whose items all fail together, loop over an "
+                  "earlier step's result with slow items); a record run lists the schedule points (spliced before lock/unlock, channel "
                   "send/receive, select, wait-group, go statements, handler calls of workflow.go and both providers) each program hits; single-site sweep: one "
                   "sleep of D ms at the h-th hit of point P (quick: every hit point x first hit x 35 ms; thorough: x {first, second, last} x {35,120} ms) plus "
                   "random multi-site plans (decision = hash(seed, point, hit)); oracle: result equals the reference result; non-trivial/distinct = "
@@ -161,6 +176,9 @@ def run(check):
             if d["kind"] == "deadlock":
                 key = "sched@%s->hang" % ("multi" if multi else site[0])
                 check.report(key, "run hung under delay plan %s in %s: %s" % (site, g["shape"], d["key"]), {"case": case, "detail": d.get("detail", "")[:3000]})
+            elif d["kind"] in ("panic", "fatal"):
+                key = "sched@%s->crash:%s" % ("multi" if multi else site[0], d["key"])
+                check.report(key, "process died under delay plan %s in %s: %s" % (site, g["shape"], d.get("message", "")[:200]), {"case": case, "detail": d.get("detail", "")[:3000]})
             else:
                 check.inconclusive_case(cid, "died: %s %s" % (d["kind"], d["key"]))
             continue
